@@ -4,6 +4,8 @@
 //   entry  kind,name,short,env,metavar,desc,dflt,rev   (hex fields; dflt ~ = none)
 #include "common.hpp"
 
+#include <iomanip>
+
 #include <nitro/options/parser.hpp>
 
 namespace no = nitro::options;
@@ -168,8 +170,19 @@ static std::string handle(const std::vector<std::string>& f)
         p.usage(plain);
         std::string t3 = cb.data;
 
+        // a stream whose formatting state was left behind by earlier output (fill character, adjustment,
+        // number base): the usage text consists of strings and of padding of its own
+        std::stringstream stateful;
+        stateful << std::setfill('0') << std::setw(6) << 42 << std::left << std::hex << std::showbase << std::uppercase
+                 << std::boolalpha << ' ' << 255 << '\n';
+        std::string pre4 = stateful.str();
+        p.usage(stateful);
+        std::string t4 = stateful.str().substr(pre4.size());
+
         if (t2 != t1)
             return "STREAMS-DIFFER:prior-content " + nv::hex(t2);
+        if (t4 != t1)
+            return "STREAMS-DIFFER:formatting-state " + nv::hex(t4);
         if (t3 != t1)
             return "STREAMS-DIFFER:non-seekable " + nv::hex(t3);
 
